@@ -788,6 +788,11 @@ def run_c11(F, R, tier):
         m = model(F, v)
         bad = []
         cnt = 0
+        mm0 = [x for x in m.ctor_models if x['fn'].name == 'new' and x['init'] is not None]
+        if mm0 and cell not in mm0[0]['init']:
+            # the coefficient is not kept as a cell of that name (e.g. derived constants are stored instead): its value is
+            # decided where it acts, by the recursion / ladder rules below, which read the coefficients off the recurrence
+            continue
         for N in Ns:
             mm = [x for x in m.ctor_models if x['fn'].name == 'new' and x['init'] is not None]
             if not mm:
@@ -878,6 +883,8 @@ def run_c11(F, R, tier):
     from .e_typed_props import no_absolute_thresholds
     no_absolute_thresholds(F, R, names, 'G0')
     pfe_sign_rule(F, R)
+    from .e_range import pfe_statement_rule
+    pfe_statement_rule(F, R, tier)
     fisher_ma_input(F, R)
     no_raw_in_state(F, R, names, 'R2s')
     inert_none_path(F, R, names, 'Q1')
